@@ -193,7 +193,7 @@ def get_controller_order_multinet(multinet):
         # if no controllers are in the net, we have no levels and no order lists
         multinets = [multinet] * len(multinet.controller)
         net_list += multinets
-        controller_list += [multinet.controller.values]
+        controller_list += [multinet.controller]
 
     for net_name in multinet['nets'].keys():
         net = multinet['nets'][net_name]
@@ -202,15 +202,16 @@ def get_controller_order_multinet(multinet):
             continue
         nets = [net] * len(net.controller)
         net_list += nets
-        controller_list += [net.controller.values]
+        controller_list += [net.controller]
 
     if not len(controller_list):
         # if no controllers are in the net, we have no levels and no order lists
         return [0], [[]]
     else:
-        controller_list = pd.DataFrame(np.concatenate(controller_list),
-                                       columns=multinet.controller.columns)
-        controller_list = controller_list.astype(multinet.controller.dtypes)
+        # the controller tables are combined by column label (a member table can have additional columns)
+        controller_list = pd.concat(controller_list, ignore_index=True)
+        dtypes = {col: dt for col, dt in multinet.controller.dtypes.items() if col in controller_list.columns}
+        controller_list = controller_list.astype(dtypes)
         return get_controller_order(net_list, controller_list)
 
 
